@@ -24,7 +24,10 @@ def cargo_test(tests, scratch, timeout=1500, extra_env=None):
     """run the named replay tests of the real crate (hooks on); returns {test: (passed, log)}"""
     env = dict(os.environ)
     env["RUST_BACKTRACE"] = "0"
-    env["CARGO_TARGET_DIR"] = os.path.join(scratch, "target")
+    # dependency build cache (re-created when absent; cargo's fingerprints rebuild the crate itself whenever
+    # /repo's working tree changed).  VERIF_CARGO_CACHE="" -> build in the scratch dir and delete afterwards.
+    cache = os.environ.get("VERIF_CARGO_CACHE", "/var/tmp/verif-cargo-target")
+    env["CARGO_TARGET_DIR"] = cache if cache else os.path.join(scratch, "target")
     env["CARGO_NET_OFFLINE"] = "true"
     env["VERIF_DIR"] = VERIF
     env.update(extra_env or {})
